@@ -130,6 +130,15 @@ class C17(SCheck):
         inv = gen.mk_inv(srcs, "dst", driver=driver, workers=workers, block_size=max(bs, 4096), **flags)
         return {"setup": ops, "steps": [{"inv": inv, "ignore": ignore}], "kernel": kernel, "gitignore": text, "n_ignored": len(ig), "max_events": 300000}
 
+    FAULT_N = {"quick": 6, "thorough": 60}
+
+    def fault_site(self, ev, case):
+        # a failing stat / open / read of a source entry or of the .gitignore file may fail the run, never widen what is copied
+        p = ev.get("p") or ev.get("fdp") or ""
+        if p.startswith("$ROOT/"):
+            p = p[6:]
+        return ev["c"] in ("statx", "newfstatat", "lstat", "stat", "openat", "read", "getdents64") and not p.startswith("dst") and p != ""
+
     def evaluate(self, res, verdict, case, step_i, t0, plan):
         f = super().evaluate(res, verdict, case, step_i, t0, plan)
         for x in f:
